@@ -240,6 +240,18 @@ func (r *ruleState) specOnResponse(req *ReqRec) {
 		return
 	}
 	if needCands && len(cands) == 0 {
+		// an answer that is not an error although none of the request's store transactions was
+		// committed: the store reported success for a batch it rolled back
+		uncommitted := 0
+		for _, tr := range req.Txs {
+			if !tr.Committed {
+				uncommitted++
+			}
+		}
+		if uncommitted > 0 && uncommitted == len(req.Txs) {
+			r.specFail(req, append(P("C02", "C06"), ownersOf(req.Req.Kind.String())...), "answered as if it had been served although none of its store transactions committed")
+			return
+		}
 		s.Probes["spec_unattributable"]++
 		return
 	}
